@@ -186,7 +186,18 @@ func init() {
 			}
 			return out
 		},
-		Extra: func(tier string, shard, of int) ExtraResult { return SelectExtra(tier, shard, of, "C02") }})
+		Extra: func(tier string, shard, of int) ExtraResult {
+			a := SelectExtra(tier, shard, of, "C02")
+			b := ConfigExtra(tier, shard, of)
+			a.Evaluations += b.Evaluations
+			a.Distinct += b.Distinct
+			a.Findings = append(a.Findings, b.Findings...)
+			a.Samples = append(a.Samples, b.Samples...)
+			for k, v := range b.Notes {
+				a.Notes[k] = v
+			}
+			return a
+		}})
 	register(&Check{ID: "C08", Level: "model_checking", Workers: 16,
 		Rule: "explicit-state DFS (iterative deepening) with node.BeginBlocker executed at every height: {add capacity, remove capacity (round and non-round sizes), claim, store+complete, terminate, next block} by two providers under two parameter sets (pledge above / below baseline); per block: supply delta == coinbase events == reward counter delta <= schedule bound; per state: claimed + claimable per provider vs an independent capacity x blocks reference, sum <= minted; per claim: amount and recipient; non-trivial = distinct states after at least one minting block with a provider share",
 		Assumptions: append([]string{"halving ages > 0 are not reached (TotalReward stays far below the 400e12 cap in bounded runs)"}, lifeAssumptions...),
